@@ -482,6 +482,34 @@ theorem rel_ops_agree {fe : β → β → R Bool} {g : β → β → Bool} {fc :
   · simp only [Derive.min, Derive.lt, hp b a, bind, Except.bind, pure, Except.pure]
     by_cases q1 : c b a < 0 <;> simp [q1]
 
+/-- the derived operators look at nothing but the SIGN of the component `cmp`: two comparison functions
+with the same sign everywhere (e.g. a user's `a::x - b::x` and its normalisation to -1/0/1) give the same
+`lt / le / gt / ge / min / max`, and sequence comparisons of the same sign.  (`Cmp3Ord`, `cmp_total_lex`
+and `rel_ops_agree` are stated with `< 0`, `= 0`, `> 0` throughout — for arbitrary integer results.) -/
+theorem derived_depend_on_sign_only {fc fc' : β → β → R Int} {c c' : β → β → Int}
+    (hp : PureCmp fc c) (hp' : PureCmp fc' c')
+    (hs : ∀ a b, Derive.sign (c a b) = Derive.sign (c' a b)) (a b : β) :
+    Derive.lt fc a b = Derive.lt fc' a b ∧ Derive.le fc a b = Derive.le fc' a b ∧
+    Derive.gt fc a b = Derive.gt fc' a b ∧ Derive.ge fc a b = Derive.ge fc' a b ∧
+    Derive.max (Derive.lt fc) a b = Derive.max (Derive.lt fc') a b ∧
+    Derive.min (Derive.lt fc) a b = Derive.min (Derive.lt fc') a b ∧
+    ∀ l0 l1, Derive.sign (seqCmpI c l0 l1) = Derive.sign (seqCmpI c' l0 l1) := by
+  have h1 := sign_eq_iff (hs a b)
+  have h2 := sign_eq_iff (hs b a)
+  have e1 : decide (c a b < 0) = decide (c' a b < 0) := by simp only [decide_eq_decide]; exact h1.1
+  have e2 : decide (c a b > 0) = decide (c' a b > 0) := by simp only [decide_eq_decide]; exact h1.2.2
+  have e3 : decide (c b a < 0) = decide (c' b a < 0) := by simp only [decide_eq_decide]; exact h2.1
+  refine ⟨?_, ?_, ?_, ?_, ?_, ?_, seqCmpI_sign_congr hs⟩
+  · simp only [Derive.lt, hp a b, hp' a b, bind, Except.bind, pure, Except.pure, e1]
+  · simp only [Derive.le, hp a b, hp' a b, bind, Except.bind, pure, Except.pure, e2]
+  · simp only [Derive.gt, hp a b, hp' a b, bind, Except.bind, pure, Except.pure, e2]
+  · simp only [Derive.ge, hp a b, hp' a b, bind, Except.bind, pure, Except.pure, e1]
+  · simp only [Derive.max, Derive.lt, hp a b, hp' a b, bind, Except.bind, pure, Except.pure, e1]
+  · simp only [Derive.min, Derive.lt, hp b a, hp' b a, bind, Except.bind, pure, Except.pure, e3]
+
+/-- `Cmp3Ord` does not ask for results in {-1, 0, 1}: the user-style `(a - b) * 7` is an instance -/
+example : Cmp3Ord (fun a b : Int => (a - b) * 7) (fun a b => a == b) := scaled_int_cmp3ord
+
 end derive
 
 /-! ## format specifiers -/
